@@ -119,6 +119,10 @@ class Run:
         self.batch = batch
         self.schedule = schedule
         self.net = simnet.Net(rng)
+        if rng.random() < 0.25:         # send buffers that take a few hundred bytes per writable event
+            self.net.send_window = rng.choice([300, 700, 5000])
+            mon.c["runs_with_small_send_buffers"] = mon.c.get("runs_with_small_send_buffers", 0) + 1
+            w["send_window"] = self.net.send_window
         pyrandom.seed(rng.getrandbits(64))      # ChainManager.step and message contexts use the global generator
         self.nodes = []
         self.relays = []       # (node name, kind, id)
@@ -568,6 +572,7 @@ def run_shard(spec):
             nn = len(per_node)
             r2 = random.Random(k)
             offs = w.get("clock_offsets")
+            # (Run draws its own send window; the recorded one is set below)
             run = Run(mon, world, per_node, TOPOLOGIES[nn][w["topology"]], r2, w["batch"], w["schedule"], w,
                       same_host=w.get("same_host", False), skew=[offs.get("n%d" % i, 0) for i in range(nn)] if offs else None,
                       unreachable=tuple(w.get("unreachable_nodes", ())))
